@@ -1,4 +1,5 @@
 //! Shared pieces of the correspondence harness.
+pub mod chainsim;
 pub mod common;
 pub mod gal;
 pub mod rng;
